@@ -12,6 +12,8 @@ materializing the original formula on shifted data.
 """
 from __future__ import annotations
 
+from vf.bounded import _meta_guard as _g  # noqa: E402
+
 import itertools
 import random
 
@@ -464,8 +466,13 @@ def all_terms(names):
 
 
 def run_bounded(ctx):
+    _g.begin("C20", ctx)
     rng = random.Random(ctx.seed)
     counts = {}
+
+    def rec(b):
+        return lambda clause, cls, witness, detail: _fail(b, counts, clause, cls, witness, detail)
+
     # 16 products incl. the intercept + 5 numerically scaled products (literal first, in the middle, last)
     universe = all_terms(NAMES) + [("3", "a"), ("b", "0.5", "c"), ("a", "b", "2"), ("1.5", "d", "c", "a"), ("2", "a", "b", "c", "d")]
     # + columns named like built-in transforms as lookup factors, and whole Python-expression factors
@@ -489,14 +496,14 @@ def run_bounded(ctx):
                 if scale_conflict(terms):
                     continue  # not a formula
                 for wrt in wrts:
-                    check_symbolic(b, counts, list(terms), wrt, None)
+                    _g.guard(rec(b), check_symbolic, b, counts, list(terms), wrt, None)
         # the extended vocabulary: every formula that uses at least one of the 5 extra terms, x all tuples
         for k in range(1, min(kmax, 3) + 1):
             for terms in itertools.combinations(universe_x, k):
                 if scale_conflict(terms) or not any(t in universe_x[len(universe):] for t in terms):
                     continue
                 for wrt in wrts + wrts_x if k == 1 else wrts_x + [w for w in wrts if len(w) == 1]:
-                    check_symbolic(b, counts, list(terms), wrt, None)
+                    _g.guard(rec(b), check_symbolic, b, counts, list(terms), wrt, None)
     with ctx.bounded(
         "differentiate-factor-sets-random",
         rule="seeded random formulas with <= 8 terms over {a,b,c,d,`my col`, I,C,Q,log,center as columns, log(u), I(v * 2)} (unsorted factor order, 25% of the terms carry a "
@@ -512,7 +519,7 @@ def run_bounded(ctx):
                 if scale_conflict(terms):
                     continue
                 for wrt in rng.sample(wrts, 4):
-                    check_symbolic(b, counts, list(terms), wrt, None)
+                    _g.guard(rec(b), check_symbolic, b, counts, list(terms), wrt, None)
         pool = NAMES + ["my col"] + TNAMES + PYFACTORS
         for _ in range(4000 if ctx.thorough else 600):
             n = rng.randint(1, 8)
@@ -525,7 +532,7 @@ def run_bounded(ctx):
             terms = list({frozenset(variables_of(t)): t for t in terms}.values())  # distinct products, random factor order
             rng.shuffle(terms)
             wrt = tuple(rng.choice(pool + ["e"]) for _ in range(rng.randint(0, 4)))
-            check_symbolic(b, counts, terms, wrt, rng.choice([None, "none", "sort", "degree"]))
+            _g.guard(rec(b), check_symbolic, b, counts, terms, wrt, rng.choice([None, "none", "sort", "degree"]))
             if rng.random() < 0.3:
                 parts = []
                 for _p in range(5):  # 5 parts, each with at least one product term, distinct products per part
@@ -538,7 +545,7 @@ def run_bounded(ctx):
                         if part[k]:
                             part[k] = (rng.choice(LITS),) + part[k]
                     parts.append(part)
-                check_structured(b, counts, rng.choice(SHAPES), parts, wrt)
+                _g.guard(rec(b), check_structured, b, counts, rng.choice(SHAPES), parts, wrt)
     with ctx.bounded(
         "differentiate-finite-differences",
         rule="multilinear formulas (<= 5 product terms over numeric columns a..d, 30% with a scaling literal, a third using columns "
@@ -603,7 +610,7 @@ def run_bounded(ctx):
             if "log(u)" in used:
                 data["u"] = [float(rng.choice([0.5, 1, 2, 4, 8])) for _ in range(rows)]
             h = [rng.choice([1.0, 2.0, 0.5]) for _ in wrt]
-            check_numeric(b, counts, terms, wrt, data, h, outputs[i % 3] if ctx.thorough or i % 4 == 0 else "pandas")
+            _g.guard(rec(b), check_numeric, b, counts, terms, wrt, data, h, outputs[i % 3] if ctx.thorough or i % 4 == 0 else "pandas")
     with ctx.bounded(
         "differentiate-structured-routes",
         rule="multilinear formulas over numeric columns a..d (30% with a scaling literal) in 6 shapes (plain, lhs ~ rhs, multi-part "
@@ -630,7 +637,7 @@ def run_bounded(ctx):
             wrt = tuple(rng.choice(present) for _ in range(rng.randint(1, 2)))
             data = {n: [float(rng.choice([-3, -2, -1, 0, 1, 2, 3, 4, 0.5, 1.5])) for _ in range(5)] for n in NAMES}
             h = [rng.choice([1.0, 2.0, 0.5]) for _ in wrt]
-            check_routes(b, counts, shapes[i % len(shapes)], parts, wrt, data, h, ROUTES[(i // len(shapes)) % 3])
+            _g.guard(rec(b), check_routes, b, counts, shapes[i % len(shapes)], parts, wrt, data, h, ROUTES[(i // len(shapes)) % 3])
     ctx.assume(
         "C20-scope: factors are plain (optionally back-quoted) column names and use_sympy=False; a variable 'occurs' in a term "
         "iff it is one of its factors (function-call factors such as log(a) are outside 'products of distinct factors')",
